@@ -163,20 +163,21 @@ func checkC07(c C07Case) (labels []string, nontrivial bool, err error) {
 	z := applyContainerMut(good, c.Mut)
 	isTrunc := len(c.Mut) == 1 && c.Mut[0].Kind == "trunc"
 	// reference judgement of the corrupted input
-	var verdict refinflate.CVerdict
+	// strict = compress/flate's DEFLATE rules (a still-valid input must read to EOF);
+	// permissive = upper bound of what may be accepted (C03): io.EOF is allowed only then.
+	var verdict, pverdict refinflate.CVerdict
 	var refPayload []byte
 	emptyOK := false
 	if c.Pkg == "gzip" {
 		g := refinflate.ParseGzip(z, true)
-		verdict, refPayload = g.Verdict, g.Payload
+		verdict = g.Verdict
 		emptyOK = g.EmptyInput
+		pg := refinflate.ParseGzipOpt(z, true, true)
+		pverdict, refPayload = pg.Verdict, pg.Payload
 	} else {
-		zr := refinflate.ParseZlib(z, nil)
-		verdict, refPayload = zr.Verdict, zr.Payload
-		if zr.Verdict == refinflate.CValid && zr.End != len(z) {
-			// trailing bytes after a zlib stream are not looked at
-			verdict = refinflate.CValid
-		}
+		verdict = refinflate.ParseZlib(z, nil).Verdict
+		pz := refinflate.ParseZlibOpt(z, nil, true)
+		pverdict, refPayload = pz.Verdict, pz.Payload
 	}
 	var src io.Reader = bytes.NewReader(z)
 	if c.BufSrc > 0 {
@@ -208,8 +209,8 @@ func checkC07(c C07Case) (labels []string, nontrivial bool, err error) {
 	if rerr == io.EOF {
 		if openErr == io.EOF && emptyOK {
 			// empty gzip input: a shorter valid file
-		} else if verdict != refinflate.CValid {
-			return nil, false, fmt.Errorf("%s: Reader reports io.EOF after %d bytes, but by the trailer actually present the data is not valid (%v)", desc, len(out), verdict)
+		} else if pverdict != refinflate.CValid {
+			return nil, false, fmt.Errorf("%s: Reader reports io.EOF after %d bytes, but by the trailer actually present the data is not valid (%v)", desc, len(out), pverdict)
 		} else if !bytes.Equal(out, refPayload) {
 			return nil, false, fmt.Errorf("%s: Reader reports io.EOF with %d bytes that differ from the payload the container encodes (%d bytes) at %d", desc, len(out), len(refPayload), firstDiff(out, refPayload))
 		}
